@@ -35,16 +35,32 @@ def run_states(run, prop, binp, cases, mode, codes_of_interest, what):
     for i, c in enumerate(cases):
         c["id"] = i
     results = run_harness(binp, "scenario", cases, workdir, timeout_ms=20000)
+    # the release profile (no debug assertions, no overflow checks): whatever it shows differently from the dev profile is judged
+    # by the same exact comparison (identical output needs no second evaluation)
+    rel = run_harness(build_harness("release"), "scenario", cases, workdir, timeout_ms=20000, tag="rel")
+    both = [(c, r, "") for c, r in zip(cases, results)]
+    ndiff = 0
+    for c, r, rr in zip(cases, results, rel):
+        if rr.get("panic") is not None or rr.get("timeout") or rr.get("steps") != r.get("steps") or rr.get("head") != r.get("head"):
+            both.append((c, rr, " (release profile)"))
+            ndiff += 1
+    run.coverage["release_profile_cases_differing_from_dev"] = ndiff
     terms, idx = [], []
-    for c, r in zip(cases, results):
+    for c, r, prof in both:
+        what_p = what + prof
         if r.get("panic") is not None or r.get("timeout") or r["head"].get("build") != "ok":
-            run.violation("%s: construction / update panicked, hung or failed" % what, {"case": c, "result": r})
+            run.violation("%s: construction / update panicked, hung or failed" % what_p, {"case": c, "result": r})
             continue
         for k, ob, jq, tb in triples(c, r):
             # nothing may drop out of the exact comparison silently: when the model evaluates to finite values (and the weights
             # are finite) the problem must show finite residuals and coefficients, and — all derivatives given — a finite Jacobian
             w = num.weights_of(c)
             model_ok = tb["phi"] is not None and num.all_finite_mat(tb["phi"]) and (w is None or all(is_finite_hex(h) for h in w))
+            if tb["phi"] is not None and not num.all_finite_mat(tb["phi"]) and (ob["resid"] is not None or ob["coef"] is not None):
+                run.violation("%s, state at step %d: residuals / coefficients are exposed although the model values at the parameters in "
+                              "effect are not finite (they cannot belong to these parameters)" % (what_p, k),
+                              {"case": c, "step": k, "observe": ob, "tables": tb})
+                continue
             if model_ok:
                 gone = None
                 if ob["resid"] is None or ob["coef"] is None:
@@ -57,22 +73,22 @@ def run_states(run, prop, binp, cases, mode, codes_of_interest, what):
                     elif not num.all_finite_mat(jq):
                         gone = "the Jacobian is not finite"
                 if gone:
-                    run.violation("%s, state at step %d: %s although the model evaluates to finite values" % (what, k, gone),
+                    run.violation("%s, state at step %d: %s although the model evaluates to finite values" % (what_p, k, gone),
                                   {"case": c, "step": k, "observe": ob, "jacobian": jq, "tables": tb})
                     continue
             t = num.state_term(c, ob, tb, jac=jq, with_jac=(mode & 4) != 0, mode=mode)
             if t is not None:
                 terms.append(t)
-                idx.append((c, r, k))
+                idx.append((c, r, k, what_p))
     codes = coq_eval(prop, num.HEADER, terms, per_file_timeout=2400)
     hist = {}
     nskip = 0
-    for (c, r, k), code, t in zip(idx, codes, terms):
+    for (c, r, k, what_p), code, t in zip(idx, codes, terms):
         hist[code] = hist.get(code, 0) + 1
         if code == 1:
             nskip += 1
         elif codes_of_interest(code):
-            run.violation("%s, state at step %d: %s" % (what, k, num.state_code_text(code)),
+            run.violation("%s, state at step %d: %s" % (what_p, k, num.state_code_text(code)),
                           {"case": c, "step": k, "observe": r["steps"][k]["v"], "jacobian": r["steps"][k + 1]["v"],
                            "tables": r["steps"][k + 2]["v"], "coq_term": t})
     return results, len(terms), nskip, hist
